@@ -595,6 +595,37 @@ class LayoutSuite(common.Suite):
             {"ty": ["struct", [["prim", 1, "bool"], ["farr", ["struct", [u8, u8]], 2], u8]], "qs": [["expand"], ["offsets", [0], [8]], ["offsets", [1], [8]]]},
         ]
 
+    def exhaustive(self, prop, part, parts):
+        """Small scope, complete (thorough tier): every type tree of depth <= 2 over the primitive alphabet
+        {bool, uint3, uint8, uint64}, capacities {1, 2, 255, 256}, structures / unions of one or two members,
+        delimited wrappers with the minimal extent and one byte more."""
+        prims = [["prim", 1, "bool"], ["prim", 3, "uintsat"], ["prim", 8, "uintsat"], ["prim", 64, "uintsat"]]
+        caps = [1, 2, 255, 256]
+
+        def arrays(xs):
+            return [[k, x, c] for x in xs for k in ("farr", "varr") for c in caps]
+
+        def ext_of(inner, extra):
+            nodes: list = []
+            mx = B.o_max(nodes, s_nodes(strip(inner), nodes))
+            return -(-mx // 8) * 8 + extra
+
+        l1_comp = [["struct", [p]] for p in prims] + [["struct", [p, q]] for p in prims for q in prims] + [["union", [p, q]] for p in prims for q in prims]
+        l1 = arrays(prims) + l1_comp
+        l2 = arrays(l1_comp) + arrays(arrays(prims[:2])[:8])
+        l2 += [["struct", [x, prims[1]]] for x in l1] + [["struct", [prims[1], x]] for x in l1] + [["union", [x, prims[2]]] for x in l1]
+        l2 += [["delim", x, ext_of(x, e)] for x in l1_comp for e in (0, 8)]
+        l2 += [["struct", [prims[0], ["delim", x, ext_of(x, 0)], prims[1]]] for x in l1_comp[:12]]
+        trees = l1 + l2
+        rng = random.Random(12345)
+        out = []
+        for idx, t in enumerate(trees):
+            c = make_queries(rng, t, prop)  # consumes the PRNG for every tree so that all parts see the same queries
+            if idx % parts != part or c is None:
+                continue
+            out.append(c)
+        return out
+
     def run_impl(self, case):
         pydsdl = common.import_pydsdl()
         t = case["ty"]
